@@ -297,7 +297,7 @@ def run(ctx):
             coq_meta.append({"geno": (M, m, normal)})
 
     # ---------------------------------------------------------------- clustered files
-    n_cl = 20 if quick else 400
+    n_cl = 30 if quick else 400
     for k in range(n_cl):
         nsamp = rng.choice([1, 2, 3])
         nmut = rng.randint(2, 7)
@@ -310,14 +310,29 @@ def run(ctx):
         assign = {mm: (cl_ids[j] if j < ncl else rng.choice(cl_ids)) for j, mm in enumerate(muts)}
         scfg = [random_sample_cfg(rng) for _ in range(nsamp)]  # t / err per sample
         rows, cfg_of = [], {}
+        # every third file: mutations with IDENTICAL content (same counts, copy numbers, purity in every sample) - inside one
+        # cluster and across clusters - as real data has them; a grid shared between such mutations must not be altered by the
+        # cluster sums
+        dup_of = {}
+        if k % 3 == 0 and nmut >= 3:
+            for mm in muts[1:]:
+                if rng.random() < 0.6:
+                    dup_of[mm] = rng.choice([x for x in muts[: muts.index(mm)] if x not in dup_of])
         for mm in muts:
             for si in range(nsamp):
+                if mm in dup_of:
+                    c, ref_, x = cfg_of[(dup_of[mm], si)]
+                    cfg_of[(mm, si)] = (c, ref_, x)
+                    rows.append(T.row(mm, "S%d" % si, ref_, x, c["major"], c["minor"], c["normal"], c["t"], c["err"]))
+                    continue
                 M, m = rng.choice(cn_states(4))
                 c = {"major": M, "minor": m, "normal": rng.choice([1, 2, 2]), "t": scfg[si]["t"], "err": scfg[si]["err"]}
                 n = rng.randint(0, 12) if small else rng.randint(0, 60)
                 x = rng.randint(0, n)
                 cfg_of[(mm, si)] = (c, n - x, x)
                 rows.append(T.row(mm, "S%d" % si, n - x, x, M, m, c["normal"], c["t"], c["err"]))
+        if dup_of:
+            ctx.count("clustered:files_with_identical_mutations")
         rng.shuffle(rows)
         path = os.path.join(tmp, "c%04d.tsv" % k)
         T.write_table(path, rows)
